@@ -89,9 +89,27 @@ def run_variant(prop, v, repo="/repo"):
         shutil.rmtree(os.path.join(VERIF, ".cache", "scratch-evidence", os.path.basename(d)), ignore_errors=True)
 
 
+def seeded_variants(prop):
+    """Independently written breaking changes kept under /verif/seeded/ that this property's check is
+    recorded to report: they are replayed as mutants so that a later rule change cannot silently lose them."""
+    import glob
+    out = []
+    for mp in sorted(glob.glob(os.path.join(VERIF, "seeded", "*", "meta.json"))):
+        try:
+            m = json.load(open(mp))
+        except Exception:
+            continue
+        det = m.get("detected_by", {}).get(prop)
+        if det and det.get("status") == "caught":
+            out.append({"name": "seed-" + m["id"], "kind": "mutant", "patch": os.path.relpath(os.path.join(os.path.dirname(mp), "patch.diff"), VERIF),
+                        "expect": det.get("fired_rules", []), "why": m.get("breaks", "")[:200]})
+    return out
+
+
 def run(prop, mod, only=None, workers=4):
     from concurrent.futures import ThreadPoolExecutor
-    todo = [v for v in getattr(mod, "SELFTEST", []) if not only or v["name"] in only]
+    variants = list(getattr(mod, "SELFTEST", [])) + seeded_variants(prop)
+    todo = [v for v in variants if not only or v["name"] in only]
     if not todo:
         return []
     with ThreadPoolExecutor(max_workers=workers) as ex:
